@@ -240,3 +240,4 @@ def next_available_xs_types_are_unused_letters(na: int, a1: int, a2: int, a3: in
     if not refused:
         assert got == free[:howMany], "the first free letters"
         assert len(set(got)) == howMany and all(c in letters and c not in used for c in got)
+
